@@ -272,7 +272,7 @@ impl Property for C06 {
         vec!["channel ids used by the application exist (the API documents a panic otherwise)".into(), "message contents on the victim connection are not judged: at this layer whoever can inject packets is the peer".into()]
     }
     fn pbt(&self, tier: Tier) -> PbtCfg {
-        PbtCfg { cases: tier.pick(200_000, 6_000_000), max_len: tier.pick(2000, 6000), shrink_ms: 120_000 }
+        PbtCfg { cases: tier.pick(200_000, 3_000_000), max_len: tier.pick(2000, 6000), shrink_ms: 120_000 }
     }
     fn required_labels(&self) -> Vec<&'static str> {
         vec!["inject_reached_state", "inject_contradicting_slice", "inject_parsed_ack", "inject_unparsed", "victim_disconnected", "healed_complete", "inject_sequence_burst"]
